@@ -268,7 +268,57 @@ func runCraft(c CraftCase, r *pbt.R) {
 	}
 }
 
+// BigCase: an input longer than 65536 bytes whose head carries a length field at its maximum. Decoders that
+// compute "offset + declared length" in the width of the field (uint8/uint16 arithmetic) wrap around for such
+// an input; random mutation of genuine encodings never grows an input to that size.
+type BigCase struct {
+	Codec string `json:"codec"`
+	Head  string `json:"head"` // hex of the first bytes
+	Fill  int    `json:"fill"` // number of filler bytes behind them
+	FillB int    `json:"fillb"`
+}
+
+func bigCases(tier string, yield func(BigCase) bool) {
+	heads := []string{"ffff", "fffe", "ff", "00ffff", "0000ffff", "ffffff", "00ffffff", "fefdffff", "0100ffff", "ff00", "0001ffff", "03001dffff", "16fefd0000000000000000ffff"}
+	fills := []int{65535, 65536, 65537, 65540}
+	if tier != "thorough" {
+		fills = []int{65537}
+	}
+	for _, cd := range codecs {
+		for _, h := range heads {
+			for _, f := range fills {
+				for _, fb := range []int{0x00, 0xff} {
+					if !yield(BigCase{cd.name, h, f, fb}) {
+						return
+					}
+				}
+			}
+		}
+	}
+}
+
+func runBig(c BigCase, r *pbt.R) {
+	cd := codecIdx[c.Codec]
+	if cd == nil {
+		return
+	}
+	var head []byte
+	_, _ = fmt.Sscanf(c.Head, "%x", &head)
+	b := append(append([]byte(nil), head...), bytes.Repeat([]byte{byte(c.FillB)}, c.Fill)...)
+	res := checkBytes(cd, b, "raw", nil, r)
+	cl := "rejected"
+	if res.accepted {
+		cl = "accepted"
+	}
+	r.Eval(fmt.Sprintf("%s|%s|%d|%d", c.Codec, c.Head, c.Fill, c.FillB), true, cl)
+}
+
 func init() {
+	pbt.Register(pbt.Prop[BigCase]{
+		Name: "oversize-length-fields", Exhaustive: true, Run: runBig, Enum: bigCases,
+		Rule: "every codec x 13 heads that put a maximal 8/16/24-bit length field at offsets 0..11 x 65535..65540 filler bytes (0x00 / 0xff): inputs beyond the range of 16-bit offset arithmetic; " +
+			"rule engine as for byte mutations (no panic, accepted input re-encodes to a fixed point, declared lengths honoured)",
+	})
 	pbt.Register(pbt.Prop[CraftCase]{
 		Name: "crafted-boundary-inputs", Exhaustive: true, Run: runCraft,
 		Enum: func(_ string, yield func(CraftCase) bool) {
